@@ -994,6 +994,7 @@ func bootstrapRound(r *ev.Run, round int, p roundPlan, rng *rand.Rand) {
 			return
 		}
 	}
+	w.tsoSequences(l, "before-bootstrap", round%2 == 0)
 	// (2) malformed requests, one after the other
 	order := rng.Perm(len(malformations))
 	nm := len(order)
